@@ -43,7 +43,29 @@ def rust_ty(ty, first_usize=False):
     return "(%s, %s)" % (l, rust_ty(ty[2]))
 
 
-def adapters_text(chain, std, hyg=None):
+SPELL_FNS = ("const fn sp_even(x: &u64) -> bool { *x % 2 == 0 } const fn sp_add1(x: u64) -> u64 { x + 1 } "
+             "const fn sp_third(x: u64) -> Option<u64> { if x % 3 == 0 { None } else { Some(x) } } "
+             "const fn sp_pair(x: u64) -> std::ops::Range<u64> { x..x + 2 } "
+             "const fn sp_lt2(x: &u64) -> bool { *x < 2 } const fn sp_lt3(x: &u64) -> bool { *x < 3 } ")
+
+
+def spelled(k, n, mode):
+    """the closure of adapter k (on scalar items) in another spelling: 1 typed parameter, 2 return type + block, 3 function"""
+    table = {
+        "filter": ("filter(|v: &u64| *v % 2 == 0)", "filter(|&v| -> bool { v % 2 == 0 })", "filter(sp_even)"),
+        "map": ("map(|v: u64| v + 1)", "map(|v| -> u64 { v + 1 })", "map(sp_add1)"),
+        "filter_map": ("filter_map(|v: u64| { if v % 3 == 0 { None } else { Some(v) } })",
+                       "filter_map(|v| -> Option<u64> { if v % 3 == 0 { None } else { Some(v) } })", "filter_map(sp_third)"),
+        "flat_map": ("flat_map(|v: u64| { v..v + 2 })", "flat_map(|v| -> std::ops::Range<u64> { v..v + 2 })", "flat_map(sp_pair)"),
+        "skip_while": ("skip_while(|v: &u64| *v < 2)", "skip_while(|&v| -> bool { v < 2 })", "skip_while(sp_lt2)"),
+        "take_while": ("take_while(|v: &u64| *v < 3)", "take_while(|&v| -> bool { v < 3 })", "take_while(sp_lt3)"),
+    }
+    if k == "map" and n != 1:
+        return None
+    return table[k][mode - 1] if k in table else None
+
+
+def adapters_text(chain, std, hyg=None, spell=0):
     """comma-separated konst adapters or dotted std adapters; returns (text, final type).
     hyg: name of a caller-side constant used instead of the numeric argument of take / skip (konst side only)"""
     ty = U
@@ -80,6 +102,8 @@ def adapters_text(chain, std, hyg=None):
             t = "zip(ZO.iter().copied())" if std else "zip(konst::slice::iter_copied(ZO))"
         else:
             raise ValueError(k)
+        if spell and not std and ty == U and spelled(k, n, spell):
+            t = spelled(k, n, spell)
         parts.append(t)
         ty = ty_after(ty, a)
     return parts, ty
@@ -157,16 +181,16 @@ def has_state(r):
     return any(a["k"] == "map_s" for a in r["chain"])
 
 
-def case(r, hyg=None):
+def case(r, hyg=None, spell=0):
     """-> (body, exp_string, model_string), or None (a closure with state cannot be captured by collect_const!'s const item)"""
     chain, cons, n = r["chain"], r["cons"], r["n"]
     if cons == "collect" and has_state(r):
         return None
-    kparts, ty = adapters_text(chain, False, hyg)
+    kparts, ty = adapters_text(chain, False, hyg, spell)
     sparts, _ = adapters_text(chain, True)
     p, key = pat_key(ty, Names())
     cnts = " ".join("let mut cnt%d = 0u64;" % q for q, a in enumerate(chain) if a["k"] == "map_s")
-    pre = "const ZO: &[u64] = &[10, 20, 30];" + (" const %s: usize = 7;" % hyg if hyg else "")
+    pre = "const ZO: &[u64] = &[10, 20, 30];" + (" const %s: usize = 7;" % hyg if hyg else "") + (" " + SPELL_FNS if spell == 3 else "")
     if cons == "for_each":
         kf = ("fn k(inp: &[u64]) -> String { " + cnts + " let mut out: Vec<u64> = Vec::new(); konst::iter::for_each!{%s in inp, copied()%s => out.push(%s); } format!(\"{:?}\", out) }"
               % (p, "".join(", " + x for x in kparts), key))
